@@ -152,6 +152,40 @@ theorem IntegralConservation.of_formula {W : ℝ → ℝ → State} {xd0 a b t :
     IntegralConservation W xd0 L R a b t := fun c =>
   ⟨(h c).1, by rw [(h c).2, integral_riemannInitial xd0 a b L R c ha hb]⟩
 
+
+/-! ### Gluing lists of waves -/
+
+theorem slast_append (W₀ : ℝ → State) (ws₁ : List SWave) (w : SWave) (ws₂ : List SWave) :
+    slast W₀ (ws₁ ++ w :: ws₂) = slast w.right ws₂ := by
+  induction ws₁ generalizing W₀ with
+  | nil => rfl
+  | cons v ws ih => simp only [List.cons_append, slast]; exact ih v.right
+
+/-- gluing: waves `ws₁` valid up to the speed `V` of a further wave, Rankine–Hugoniot at that
+wave, and the remaining waves valid from `V` on -/
+theorem svalid_append {a : ℝ} {W₀ : ℝ → State} {ws₁ : List SWave} {w : SWave} {ws₂ : List SWave} {b : ℝ}
+    (h₁ : SValid a W₀ ws₁ w.V) (hw : RankineHugoniot (slast W₀ ws₁ w.V) (w.right w.V) w.V)
+    (h₂ : SValid w.V w.right ws₂ b) : SValid a W₀ (ws₁ ++ w :: ws₂) b := by
+  induction ws₁ generalizing a W₀ with
+  | nil => exact ⟨h₁.1, h₁.2, hw, h₂⟩
+  | cons v ws ih =>
+    obtain ⟨h1, h2, h3, h4⟩ := h₁
+    exact ⟨h1, h2, h3, ih h4 hw⟩
+
+/-- **Left waves – contact – right waves.**  The left family of waves (valid up to the contact speed
+`ux`, ending in the constant state `S₁`), a contact between `S₁` and `S₂`, and the right family (valid
+from `ux` on, starting from the constant state `S₂`, ending in `R`). -/
+theorem conservationFormula_of_halves {L S₁ S₂ R : State} {wsL wsR : List SWave} {ux xd0 a b t : ℝ}
+    (ht : 0 < t) (hL : SValid ((a - xd0) / t) (fun _ => L) wsL ux)
+    (hlL : slast (fun _ => L) wsL ux = S₁) (hc : Contact S₁ S₂ ux)
+    (hR : SValid ux (fun _ => S₂) wsR ((b - xd0) / t))
+    (hlR : slast (fun _ => S₂) wsR ((b - xd0) / t) = R) :
+    ConservationFormula (fun x s => spw (fun _ => L) (wsL ++ ⟨ux, fun _ => S₂⟩ :: wsR) ((x - xd0) / s))
+      xd0 L R a b t := by
+  have hv : SValid ((a - xd0) / t) (fun _ => L) (wsL ++ ⟨ux, fun _ => S₂⟩ :: wsR) ((b - xd0) / t) :=
+    svalid_append (w := ⟨ux, fun _ => S₂⟩) hL (by rw [hlL]; exact hc.rankineHugoniot) hR
+  exact conservationFormula_of_svalid ht hv rfl (by rw [slast_append]; exact hlR)
+
 end
 
 end EPV.Conservation
